@@ -87,8 +87,12 @@ class GridWorld(InnerEnv):
         if gv_debug() and not self.state_space.contains(next_state):
             raise ValueError('next_state does not satisfy state_space')
 
-        reward = self._reward_function(state, action, next_state)
-        terminal = self._termination_function(state, action, next_state)
+        reward = self._reward_function(
+            state, action, next_state, rng=self._rng
+        )
+        terminal = self._termination_function(
+            state, action, next_state, rng=self._rng
+        )
 
         return (next_state, reward, terminal)
 
